@@ -36,6 +36,13 @@ META = {
 }
 
 
+def _ancestors(n):
+    p_ = getattr(n, '_parent', None)
+    while p_ is not None:
+        yield p_
+        p_ = getattr(p_, '_parent', None)
+
+
 def check(ctx):
     ctx.consult('plssdesc/plss_parse.py', 'plssdesc/plssdesc.py', 'rgxlib/sec.py')
     ctx.attempt(check_dispatch)
@@ -195,6 +202,12 @@ def _sec_within(ctx):
         and ('i == 0', False) in forms[('unused', 'desc')] and ('i == 0', True) in forms[('desc', 'unused')]
     # the suffix must extend the running description (not restart from the original)
     restart = any('orig_desc' in p for p in forms if len(p) == 2 and p != ('unused', 'desc') and p != ('desc', 'unused'))
+    # generally: inside the loop every update of the accumulator reads the accumulator itself
+    for n in pre:
+        inloop = any(isinstance(p_, (ast.While, ast.For)) for p_ in _ancestors(n))
+        reads_self = any(isinstance(x, ast.Name) and x.id == 'desc' for x in ast.walk(n.value))
+        if inloop and not reads_self:
+            restart = True
     ctx.tri(ok, swapped or restart, 'TBL', 'text tagged 0 is put before the description, anything else after it',
             detail_bad=f"prefix/suffix forms {sorted(forms)}: leading and trailing text are "
                        f"{'swapped' if swapped else 'not accumulated (an earlier re-attached block is lost)'}",
